@@ -74,6 +74,13 @@ func tagCounts(items fix.Items, m map[string]int) {
 	}
 }
 
+// TagCounts counts the template positions per tag.
+func TagCounts(items fix.Items) map[string]int {
+	m := map[string]int{}
+	tagCounts(items, m)
+	return m
+}
+
 // firstLeafTag returns the tag of the first leaf of an entry template.
 func firstLeafTag(items fix.Items) string {
 	for _, it := range items {
